@@ -52,6 +52,11 @@ TRANSPARENT_CASTS = ("Unsize", "PtrToPtr", "Transmute", "ReifyFnPointer", "Closu
 OVERFLOW_OPS = {"AddWithOverflow": "Add", "SubWithOverflow": "Sub", "MulWithOverflow": "Mul"}
 
 
+def os_environ_no_alias():
+    import os
+    return bool(os.environ.get("VERIF_NO_PARAM_ALIAS"))
+
+
 def _projkey(proj):
     out = []
     for e in proj:
@@ -71,12 +76,44 @@ def _projkey(proj):
     return tuple(out)
 
 
+_BASELINE_PARAMS = None
+
+
+def baseline_params():
+    """{body def path: [parameter names on the reference tree]} — rules spell parameters as on the reference tree; a
+    renamed parameter is translated back by position, so that renaming is not an alarm (rules/baseline_params.json)"""
+    global _BASELINE_PARAMS
+    if _BASELINE_PARAMS is None:
+        import json
+        import os
+        p = os.path.join(os.path.dirname(os.path.dirname(os.path.dirname(os.path.abspath(__file__)))), "rules", "baseline_params.json")
+        try:
+            with open(p) as fh:
+                _BASELINE_PARAMS = json.load(fh)
+        except OSError:
+            _BASELINE_PARAMS = {}
+    return _BASELINE_PARAMS
+
+
+def current_params(body):
+    if body.is_coroutine:
+        n = (max(body.upvars) + 1) if body.upvars else 0
+        return [body.upvars.get(i) for i in range(n)]
+    return [body.debug.get(i + 1) for i in range(body.arg_count)]
+
+
 class Origins:
     def __init__(self, body, arg_depth=3):
         self.body = body
         self.memo = {}
         self.arg_depth = arg_depth
         self.mut_locals = self._mut_borrowed()
+        self.alias = {}
+        base = baseline_params().get(body.name)
+        if base and not os_environ_no_alias():
+            for cur, ref in zip(current_params(body), base):
+                if cur and ref and cur != ref:
+                    self.alias[cur] = ref
 
     def _mut_borrowed(self):
         """user-named locals whose address is taken mutably: their identity is the variable, not its initialiser"""
@@ -136,6 +173,7 @@ class Origins:
         if local == 1 and (b.kind == "Closure" or b.is_coroutine) and parts and parts[0][0] == "f":
             name = b.upvars.get(parts[0][1], "%s.%s" % (name, parts[0][1]))
             parts = parts[1:]
+        name = self.alias.get(name, name)
         return ("var", name + self._projstr(parts))
 
     @staticmethod
